@@ -137,3 +137,76 @@ mod tests {
         }
     }
 }
+
+#[cfg(test)]
+mod recogniser_selfcheck {
+    use super::*;
+    /// The harness's recogniser against the library's parser on generated packets and on seeded
+    /// byte-level damage of them. Disagreement is a defect of the trusted base (or of the parser).
+    #[test]
+    fn recogniser_agrees_with_parser() {
+        let mut rng = prng::Rng::new(0xC0DEC);
+        let mut checked = 0u32;
+        let mut accepted = 0u32;
+        for _ in 0..6000 {
+            let cfg = gen::gen_packet_cfg(&mut rng, &[20, 40, 20, 10, 3, 1, 6]);
+            let m = gen::gen_msg(&mut rng, &cfg);
+            let mut bytes = gen::encode_with(&m, &cfg, rng.next_u64());
+            if bytes.len() > 20000 {
+                continue;
+            }
+            for round in 0..4 {
+                if round > 0 {
+                    // damage: flip / overwrite / truncate / extend
+                    match rng.below(5) {
+                        0 => {
+                            let i = rng.below(bytes.len());
+                            bytes[i] ^= 1 << rng.below(8);
+                        }
+                        1 => {
+                            let i = rng.below(bytes.len());
+                            bytes[i] = *rng.pick(&[0u8, 1, 0x3f, 0x40, 0xc0, 0xff, 0x2e, 0x5c, 41]);
+                        }
+                        2 => {
+                            let n = rng.below(bytes.len().min(8)) + 1;
+                            bytes.truncate(bytes.len() - n);
+                        }
+                        3 => bytes.push(rng.next_u64() as u8),
+                        _ => {
+                            if bytes.len() > 13 {
+                                let i = 4 + rng.below(8);
+                                bytes[i] = rng.below(3) as u8;
+                            }
+                        }
+                    }
+                    if bytes.len() < 2 {
+                        break;
+                    }
+                }
+                let lib = dnssector::DNSSector::new(bytes.clone()).unwrap().parse();
+                let mine = codec::decode(&bytes);
+                let mine_ok = matches!(&mine, Ok(d) if d.policy.is_empty());
+                checked += 1;
+                if lib.is_ok() {
+                    accepted += 1;
+                }
+                assert_eq!(
+                    lib.is_ok(),
+                    mine_ok,
+                    "parser {:?} vs recogniser {:?} on {}",
+                    lib.as_ref().map(|_| ()).map_err(|e| e.to_string()),
+                    mine.as_ref().map(|d| d.policy.clone()).map_err(|e| e.0.clone()),
+                    codec::hex(&bytes)
+                );
+                if let (Ok(p), Ok(d)) = (&lib, &mine) {
+                    assert_eq!(p.offset_answers, d.layout.off[1]);
+                    assert_eq!(p.offset_nameservers, d.layout.off[2]);
+                    assert_eq!(p.offset_additional, d.layout.off[3]);
+                    assert_eq!(p.offset_edns, d.layout.off_edns);
+                    assert_eq!(p.edns_count, d.layout.edns_count);
+                }
+            }
+        }
+        assert!(checked > 10000 && accepted > 5000, "{} {}", checked, accepted);
+    }
+}
